@@ -126,7 +126,9 @@ def gen_case(rng, stream: str):
                 a = [row + [1] for row in a] if rng.random() < 0.5 else a + [[1] * cols]
             case["ops"].append(["array", a, rng.choice(["float64", "float64", "float32", "float16"])])
         elif r < 0.62:
-            case["ops"].append(["clusters", gen_clusters(rng, case, p_out), rng.choice(["add_charge", "dataframe"])])
+            # 4th element: seed of a permutation of the 13 DataFrame columns / of the keyword order (None = canonical order)
+            case["ops"].append(["clusters", gen_clusters(rng, case, p_out), rng.choice(["add_charge", "dataframe", "dataframe"]),
+                                rng.choice([None, rng.randrange(1, 10**6), rng.randrange(1, 10**6)])])
         elif r < 0.82:
             case["ops"].append(["read"])
         elif r < 0.9:
@@ -138,6 +140,71 @@ def gen_case(rng, stream: str):
             case["ops"].append(["read"])
     case["ops"].append(["read"])
     return case
+
+
+def gen_alias_case(rng):
+    """the caller keeps and re-uses its ndarray objects: the same object is added several times (with other additions in
+    between) and is overwritten / zeroed by the caller after the call.  `["array", grid, dtype, {"buf": k}]` adds the
+    persistent caller array k (grid = the values the caller has in it at that moment); `["mutate", k, grid]` is the caller
+    writing new values into its own array k — never a detector operation, so the accounting must not move."""
+    rows, cols = rng.randint(1, 4), rng.randint(1, 4)
+    case = {"det": rng.choice(["CCD", "CMOS", "APD", "MKID"]), "rows": rows, "cols": cols,
+            "h": rng.choice(DYADIC), "w": rng.choice(DYADIC), "ops": []}
+    bufs = {}
+    dts = {}
+    n = rng.choice([3, 4, 5, 6, 8])
+    for step in range(n):
+        r = rng.random()
+        if r < 0.5 or step == 0:
+            k = rng.choice(list(bufs)) if bufs and rng.random() < 0.6 else len(bufs)
+            if k not in bufs:
+                bufs[k] = gen_array(rng, rows, cols) if rng.random() < 0.9 else [[0] * cols for _ in range(rows)]
+                dts[k] = rng.choice(["float64", "float64", "float64", "float32"])
+            case["ops"].append(["array", [list(row) for row in bufs[k]], dts[k], {"buf": k}])
+        elif r < 0.65 and bufs:
+            k = rng.choice(list(bufs))
+            bufs[k] = [[0] * cols for _ in range(rows)] if rng.random() < 0.5 else gen_array(rng, rows, cols)
+            case["ops"].append(["mutate", k, [list(row) for row in bufs[k]]])
+        elif r < 0.75:
+            case["ops"].append(["array", gen_array(rng, rows, cols), rng.choice(["float64", "float32"])])
+        elif r < 0.85:
+            case["ops"].append(["clusters", gen_clusters(rng, case, 0.0), "add_charge", None])
+        elif r < 0.93:
+            case["ops"].append(["read"])
+        else:
+            case["ops"].append(["reset"])
+    case["ops"].append(["read"])
+    return case
+
+
+def directed_alias_cases():
+    a, b, z = [[1, 0, 2], [0, 3, 0]], [[0, 5, 0], [7, 0, 0]], [[0, 0, 0], [0, 0, 0]]
+    base = {"det": "CCD", "rows": 2, "cols": 3, "h": 10.0, "w": 10.0}
+    A = ["array", a, "float64", {"buf": 0}]
+    B = ["array", b, "float64", {"buf": 1}]
+    return [
+        dict(base, ops=[A, B, A, ["read"]]),                                    # 2a + b
+        dict(base, ops=[A, ["mutate", 0, z], ["read"]]),                        # a, whatever the caller does afterwards
+        dict(base, ops=[A, ["mutate", 0, b], ["array", b, "float64", {"buf": 0}], ["read"]]),   # a + b
+        dict(base, ops=[["array", z, "float64"], A, ["read"], A, ["read"], ["reset"], A, B, A, ["read"]]),
+        dict(base, ops=[A, ["clusters", [[4, 5.0, 5.0]], "dataframe", None], A, ["mutate", 0, z], ["read"]]),
+    ]
+
+
+def directed_perm_cases():
+    """second and later cluster batches given as DataFrames whose columns are in another order (and keyword order variations)"""
+    base = {"det": "CCD", "rows": 3, "cols": 4, "h": 10.0, "w": 5.0}
+    out = []
+    for seed in (11, 12, 13, 14, 15, 16):
+        out.append(dict(base, ops=[["clusters", [[5, 15.0, 2.5]], "dataframe", None],
+                                   ["clusters", [[7, 25.0, 17.5], [2, 5.0, 12.0]], "dataframe", seed], ["read"],
+                                   ["clusters", [[9, 5.0, 2.5]], "add_charge", seed + 100], ["read"]]))
+        out.append(dict(base, ops=[["clusters", [[5, 15.0, 2.5]], "dataframe", seed], ["read"],
+                                   ["array", [[1, 0, 0, 0], [0, 0, 2, 0], [0, 0, 0, 3]], "float64"],
+                                   ["clusters", [[7, 25.0, 17.5]], "dataframe", seed + 7], ["read"]]))
+        out.append(dict(base, ops=[["array", [[1, 0, 0, 0], [0, 0, 2, 0], [0, 0, 0, 3]], "float64"],
+                                   ["clusters", [[7, 25.0, 17.5]], "dataframe", seed], ["clusters", [[1, 5.0, 7.5]], "dataframe", seed + 1], ["read"]]))
+    return out
 
 
 def directed_cases(rng, quick=True):
@@ -172,13 +239,27 @@ def run_impl(case):
 
     det = pyx.make_detector(case["det"], case["rows"], case["cols"],
                             geometry={"pixel_vert_size": case["h"], "pixel_horz_size": case["w"]})
+    import random as _random
+
     ch = det.charge
     res = []
+    bufs = {}   # the caller's own persistent ndarray objects
     for op in case["ops"]:
         rec = {}
         try:
             if op[0] == "array":
-                ch.add_charge_array(np.array(op[1], dtype=op[2]))
+                meta = op[3] if len(op) > 3 and op[3] else {}
+                if "buf" in meta:
+                    k = str(meta["buf"])
+                    if k not in bufs:
+                        bufs[k] = np.array(op[1], dtype=op[2])
+                    arr = bufs[k]           # the SAME object as in earlier additions
+                else:
+                    arr = np.array(op[1], dtype=op[2])
+                ch.add_charge_array(arr)
+                rec["out"] = "ok"
+            elif op[0] == "mutate":
+                bufs[str(op[1])][...] = np.array(op[2])   # the caller recycles its own buffer
                 rec["out"] = "ok"
             elif op[0] == "clusters":
                 n = np.array([c[0] for c in op[1]], dtype=float)
@@ -187,10 +268,20 @@ def run_impl(case):
                 z = np.zeros(len(n))
                 kw = dict(particle_type="e", particles_per_cluster=n, init_energy=z, init_ver_position=v, init_hor_position=u,
                           init_z_position=z, init_ver_velocity=z, init_hor_velocity=z, init_z_velocity=z)
+                perm = op[3] if len(op) > 3 else None
+                if perm is not None:
+                    items = list(kw.items())
+                    _random.Random(perm).shuffle(items)
+                    kw = dict(items)
                 if op[2] == "add_charge":
                     ch.add_charge(**kw)
                 else:
-                    ch.add_charge_dataframe(type(ch).create_charges(**kw))
+                    df = type(ch).create_charges(**kw)
+                    if perm is not None:
+                        cols_ = list(df.columns)
+                        _random.Random(perm + 1).shuffle(cols_)
+                        df = df[cols_]      # same 13 columns, another order: only the set of names is validated
+                    ch.add_charge_dataframe(df)
                 rec["out"] = "ok"
             elif op[0] == "read":
                 a = ch.array
@@ -296,9 +387,26 @@ def lean_request(case):
             ops.append(["clusters", [[fr(n), fr(v), fr(u)] for n, v, u in op[1]]])
         elif op[0] == "remove":
             ops.append(["remove", op[1]])
+        elif op[0] == "mutate":
+            continue        # arrays are VALUES in the model: what the caller does to its own ndarray afterwards is no operation
         else:
             ops.append([op[0]])
     return {"rows": case["rows"], "cols": case["cols"], "h": fr(case["h"]), "w": fr(case["w"]), "ops": ops}
+
+
+def align_answer(case, ans):
+    """one model / spec entry per case op: a `mutate` (caller-side only) repeats the previous state"""
+    model, spec, it_m, it_s = [], [], iter(ans["model"]), iter(ans["spec"])
+    zero = [[[0, 1]] * case["cols"] for _ in range(case["rows"])]
+    for op in case["ops"]:
+        if op[0] == "mutate":
+            prev = model[-1] if model else {"frame": [], "nextid": 0}
+            model.append({"out": "ok", "frame": prev["frame"], "nextid": prev["nextid"]})
+            spec.append(spec[-1] if spec else zero)
+        else:
+            model.append(next(it_m))
+            spec.append(next(it_s))
+    return dict(ans, model=model, spec=spec)
 
 
 def frames_agree(case, mf, jf):
@@ -373,6 +481,10 @@ def property_predicate(case, impl, mode):
                 diff = [(a, b, str(g[a][b]), str(acc[a][b])) for a in range(rows) for b in range(cols) if g[a][b] != acc[a][b]]
                 over = any(g[a][b] > acc[a][b] for a in range(rows) for b in range(cols))
                 key = "C14:outside-credited-elsewhere" if (outside_since_reset and over) else "C14:accounting"
+                if key == "C14:accounting" and any(o[0] == "mutate" or (o[0] == "array" and len(o) > 3 and o[3]) for o in case["ops"][:i]):
+                    key = "C14:accounting-caller-array-reused"
+                elif key == "C14:accounting" and any(o[0] == "clusters" and len(o) > 3 and o[3] is not None for o in case["ops"][:i]):
+                    key = "C14:accounting-column-order"
                 bad.append((key, f"op #{i} read: reported charge differs from the sum of what was added since the last reset at "
                                  f"(row, col, reported, expected) {diff[:4]}"
                                  + (" — a cluster outside the sensitive area was credited to a pixel" if (outside_since_reset and over) else ""), i))
@@ -396,12 +508,15 @@ def body(ck: common.Check):
     rng = ck.rng
     quick = ck.tier == "quick"
     cases = [("directed", c) for c in directed_cases(rng, quick)]
+    cases += [("alias", c) for c in directed_alias_cases()] + [("alias", gen_alias_case(rng)) for _ in range(60 if quick else 1500)]
+    cases += [("columns", c) for c in directed_perm_cases()]
     for stream, n in (("inside", 130 if quick else 3000), ("outside", 90 if quick else 1800), ("remove", 50 if quick else 800)):
         cases += [(stream, gen_case(rng, stream)) for _ in range(n)]
     answers = LeanDriver("C14").batch([lean_request(c) for _, c in cases])
     for a in answers:
         if "bad" in a:
             raise common.InfraError(f"driver rejected request: {a}")
+    answers = [align_answer(c, a) for (_, c), a in zip(cases, answers)]
     only = [c for _, c in cases]
     risky = [i for i, c in enumerate(only) if has_outside(c)]
     safe = [i for i in range(len(only)) if i not in set(risky)]
@@ -425,6 +540,9 @@ def body(ck: common.Check):
         ck.count("array_to_cluster_conversions", sum(1 for k, op in enumerate(case["ops"]) if op[0] == "array" and k < len(ans["model"]) and ans["model"][k]["frame"] and k > 0 and ans["model"][k - 1]["frame"]))
         for op in case["ops"]:
             ck.count(f"op={op[0]}")
+        ck.count("cluster_batches_permuted_columns", sum(1 for op in case["ops"] if op[0] == "clusters" and len(op) > 3 and op[3] is not None))
+        ck.count("same_ndarray_object_re_added", sum(1 for k, op in enumerate(case["ops"]) if op[0] == "array" and len(op) > 3 and op[3]
+                                                     and any(o[0] == "array" and len(o) > 3 and o[3] == op[3] for o in case["ops"][:k])))
         for mode, impl in runs[i]:
             for key, why, k in property_predicate(case, impl, mode):
                 ck.violation(key, why, {"case": dict(case, ops=case["ops"][: k + 1] + ([] if case["ops"][k][0] == "read" else [["read"]])),
@@ -451,8 +569,10 @@ def body(ck: common.Check):
                "add_charge_dataframe (clusters at pixel centres, on borders, one ulp either side of borders, at 0/-0.0/far edge, random inside; "
                "outside: -ulp, negative, exactly at / beyond the far edge, far away), .array reads, resets, removals by id / all, on the "
                "charge bucket of CCD/CMOS/APD/MKID detectors of 1..5 x 1..5 pixels with dyadic and non-dyadic pixel sizes (0.001..1000); "
-               "plus every border/centre position of a 3x4 detector for 4 size pairs; non-trivial = at least two additions; distinct by canonical JSON")
+               "cluster batches as DataFrames with permuted column order / permuted keyword order (first and later batches); histories in which the caller "
+               "re-adds the SAME ndarray object several times and overwrites / zeroes its own array after the call; plus every border/centre position of a 3x4 detector for 4 size pairs; non-trivial = at least two additions; distinct by canonical JSON")
     ck.assumptions = [
+        "an array addition adds the values the CALLER has in its array at call time; the caller's later writes to its own ndarray are not detector operations (arrays are values in the model)",
         "additions are non-negative (array entries and cluster numbers >= 0); charges are integers, so binary64 sums are exact",
         "removals (DESIGN 6b): while clusters remain the report must be the per-pixel sum of the clusters in .frame; nothing is claimed after removing all clusters until the next reset",
         "NaN / infinite positions are not generated (the statement's quantifier lists finite coordinates)",
